@@ -569,6 +569,8 @@ Proof.
   destruct Fx as (X1 & X2 & X3 & X4 & X5).
   assert (Fq : forall q y, In y (wqs S' q) -> In y (wqs s q) /\ y <> x).
   { intros q y H. subst S'. proj; proj. apply (dequeue_wqs s1 x READY W1) in H. exact H. }
+  assert (Fn : now S' = now s).
+  { destruct (dequeue_misc s1 x READY) as (_ & Hn & _). exact Hn. }
   constructor.
   - intros y c0 H. apply Fq in H. destruct H as [H Hn]. rewrite (Fy y Hn). now apply (rs_cv s _ R).
   - intros y l H. apply Fq in H. destruct H as [H Hn]. rewrite (Fy y Hn). now apply (rs_mx s _ R).
